@@ -1,5 +1,5 @@
 (* entry points for the pure string functions *)
-From PM Require Import Model.EntryBase Model.Nvra Base.Regex Gen.Regexes Gen.Tables.
+From PM Require Import Model.EntryBase Model.Nvra Model.ReleaseId Base.Regex Gen.Regexes Gen.Tables.
 
 Definition p_nvra (p : nvra) : pyval :=
   PDict [(lit "name", PStr (n_name p)); (lit "epoch", PN (n_epoch p)); (lit "version", PStr (n_version p));
@@ -53,9 +53,43 @@ Definition ep_rx_match (v : pyval) : pyval :=
   | _ => bad_input
   end.
 
+Definition p_triple (t : str * str * str) : pyval :=
+  match t with (a, b, c) => PList [PStr a; PStr b; PStr c] end.
+
+Definition get_triple (v : pyval) : option (str * str * str) :=
+  match v with PList [PStr a; PStr b; PStr c] => Some (a, b, c) | _ => None end.
+
+Definition ep_create_release_id (v : pyval) : pyval :=
+  match v with
+  | PList [PStr s; PStr ve; PStr t; bp] =>
+      match bp with
+      | PNone => out_result PStr (create_release_id s ve t None)
+      | _ => match get_triple bp with
+             | Some b => out_result PStr (create_release_id s ve t (Some b))
+             | None => bad_input
+             end
+      end
+  | _ => bad_input
+  end.
+
+Definition ep_parse_release_id (v : pyval) : pyval :=
+  match v with
+  | PStr s => out_result (fun r => PList [p_triple (fst r); p_opt p_triple (snd r)]) (parse_release_id s)
+  | _ => bad_input
+  end.
+
+Definition ep_valid3 (v : pyval) : pyval :=
+  match v with
+  | PStr s => PList [PBool (valid_short s); PBool (valid_version s); PBool (valid_type s)]
+  | _ => bad_input
+  end.
+
 Definition entries_str : list (str * (pyval -> pyval)) :=
   [ (lit "parse_nvra", ep_parse_nvra);
     (lit "parse_nvra_re", ep_parse_nvra_re);
     (lit "format_nevra", ep_format_nevra);
     (lit "check_nevra", ep_check_nevra);
-    (lit "rx_match", ep_rx_match) ].
+    (lit "rx_match", ep_rx_match);
+    (lit "create_release_id", ep_create_release_id);
+    (lit "parse_release_id", ep_parse_release_id);
+    (lit "valid3", ep_valid3) ].
